@@ -389,7 +389,7 @@ func (w *World) ReaderIdle() bool {
 	}
 	newest := w.Net.Conns[len(w.Net.Conns)-1]
 	for _, t := range w.S.Threads() {
-		if !t.Done() && t.Pending() == sched.OpWait && t.PendingObj() == interface{}(newest) {
+		if !t.Done() && t.Pending() == sched.OpWait && ConnOf(t.PendingObj()) == newest {
 			return true
 		}
 	}
